@@ -141,6 +141,10 @@ Proof.
   - destruct (percentage_bounds p (bh - dh) A B ltac:(lra)). destruct btm; lra.
 Qed.
 
+Lemma aligned_place (rgt : bool) (p area img : Q) :
+  aligned (if rgt then 100 - p else p) area img (place rgt (Pct p) (area - img)).
+Proof. unfold aligned, place. cbn [percentage]. destruct rgt; field. Qed.
+
 Theorem object_position_aligned f rgt btm px py bw bh i cx cy dw dh x y p :
   rb_layout f rgt btm px py bw bh i cx cy = Some (dw, dh, x, y) -> px = Pct p ->
   aligned (if rgt then 100 - p else p) bw dw (x - cx).
